@@ -80,13 +80,22 @@ def perm_trace(tid, labels, y, seed, rng):
                 proba_in=pin, proba_out=enc(pout[0]), site=PSITE, sig="m=%d" % m, truth=0, S=[])
 
 
+SHARED = {}
+
+
 def tt2c_trace(tid, labels, y, seed, probe):
+    """Every second trace re-uses ONE long-lived instance (set_params + refit + predict history): whatever an earlier
+    fit learned must not leak into this block."""
     from mlinsights.mlmodel import TransformedTargetClassifier2, PermutationReciprocalTransformer as P
     n = len(y)
     X = numpy.array([[i, (3 * i) % 4] for i in range(n)], dtype=float)
     ya = numpy.array(y, dtype=numpy.int64)
     del stubs.LOG[:]
-    tt = TransformedTargetClassifier2(classifier=stubs.RecClf(), transformer=P(random_state=seed))
+    if seed % 2:
+        tt = TransformedTargetClassifier2(classifier=stubs.RecClf(), transformer=P(random_state=seed))
+    else:
+        tt = SHARED.setdefault("c", TransformedTargetClassifier2(classifier=stubs.RecClf(), transformer="permute"))
+        tt.set_params(transformer=P(random_state=seed))
     tt.fit(X, ya)
     inner_train = [int(v) for nm, f in stubs.LOG if nm == "fitclf" for v in f["ys"]]
     sigma = [[int(k), int(v)] for k, v in tt.transformer_.permutation_.items()]
@@ -102,12 +111,16 @@ def tt2c_trace(tid, labels, y, seed, probe):
                     [s[1] for s in sorted(sigma)], range(len(sigma)))) else "non-id"))
 
 
-def tt2r_trace(tid, name):
+def tt2r_trace(tid, name, shared=False):
     from mlinsights.mlmodel import TransformedTargetRegressor2
     y = numpy.array([0.5, 1.0, 2.0, 3.5, 0.75, 1.5])
     X = numpy.array([[i, i % 2] for i in range(len(y))], dtype=float)
     del stubs.LOG[:]
-    tt = TransformedTargetRegressor2(regressor=stubs.RecRegF(), transformer=name)
+    if shared:      # one instance across all names: fit, predict, set_params(transformer=...), fit, predict, ...
+        tt = SHARED.setdefault("r", TransformedTargetRegressor2(regressor=stubs.RecRegF(), transformer="log"))
+        tt.set_params(transformer=name)
+    else:
+        tt = TransformedTargetRegressor2(regressor=stubs.RecRegF(), transformer=name)
     tt.fit(X, y)
     seen = [f["ys"] for nm, f in stubs.LOG if nm == "fitregf"]
     inner = tt.regressor_.predict(X)
@@ -127,6 +140,7 @@ def classify(t, v):
 
 def run(ctx):
     boot.load()
+    SHARED.clear()
     thorough = ctx.tier == "thorough"
     invs = "".join("INVARIANT %s\n" % i for i in ("RoundTrip", "NaNStaysNaN", "PredictsOriginalLabels",
                                                   "ProbaAgreesWithPlain", "ColumnsMatchClasses"))
@@ -150,6 +164,10 @@ def run(ctx):
         ctx.case(("tt2r", name))
         try:
             traces.append(tt2r_trace("tt2r-" + name, name))
+            for rep in range(2):
+                other = rng.choice(sorted(F.available_fcts()))
+                traces.append(tt2r_trace("tt2r-h-%s-%d-%s" % (name, rep, other), other, shared=True))
+                traces[-1]["sig"] = "history name=%s" % other
         except Exception as e:
             ctx.violation("CallSucceeds", RSITE, "name=%s" % name, repr(e))
     label_sets = [[0, 1], [0, 1, 2], [2, 5, 7], [1, 3, 4, 9], [3, 8], [0, 2, 4, 6]]
